@@ -133,6 +133,17 @@ def do_case(ctx, inp):
         n2 = sum(1 for v in o2.default_prios.values() if v == -2)
         if p1 != p2 or n1 != n2:
             ctx.fail("default-priorities-changed", {"before": p1, "after": p2, "non_default_branches": [n1, n2]}); return
+        # "... and polyhedron": generated helper ids may be renamed by the round trip, the shape of the system and the
+        # multiset of default priorities may not change
+        try:
+            g1, g2 = o.ge_polyhedron, o2.ge_polyhedron
+            sh1, sh2 = list(np.asarray(g1).shape), list(np.asarray(g2).shape)
+            m1 = sorted(int(x) for x in np.asarray(g1.default_prio_vector).tolist())
+            m2 = sorted(int(x) for x in np.asarray(g2.default_prio_vector).tolist())
+        except BaseException:
+            sh1 = sh2 = m1 = m2 = None
+        if sh1 != sh2 or m1 != m2:
+            ctx.fail("polyhedron-changed", {"shape_before": sh1, "shape_after": sh2, "default_prio_values_before": m1, "default_prio_values_after": m2}); return
 
 
 def gen_threshold(rng):
